@@ -12,7 +12,7 @@ ASSUMPTIONS = ["fault-free stream contract (DESIGN 3.1): read(n) returns min(n, 
                "ParsesOK(payload, labelmsm) - 'the constructor returns normally' - is an uninterpreted predicate of the payload bytes in "
                "read()'s own obligations; the decode-path obligations included here (as in C03) show that it is false only where the reference "
                "layout interpreter fails, i.e. the payload is too short for the fields it announces; unknown message numbers satisfy it by C15",
-               "socket-backed streams: by C11 (SocketWrapper refines the stream contract)"]
+               "socket-backed streams: the SocketWrapper units and the refinement lemmas (incl. the fault-free-peer ones, lemma.refines_faultfree.*) are discharged in this check; that b'' instead of a partial tail at a truncated end makes no difference is argued (C02's input is a concatenation of complete items)"]
 ARGUED = ["iteration returns every returnable frame exactly once, in order: each read() returns the FIRST returnable item at or after "
           "its start (NoRet chain) and leaves pos at that item's end, which is the next call's start; (None, None) only when every item "
           "has been consumed - induction over successive calls",
